@@ -16,7 +16,7 @@ from vmon.ref import pairs
 ID = 'C26'
 RULE = ('crystal as in C24 (30% named, else random Bravais type, 2-D/3-D, 1-2 species, <=3 sites of the vacancy species), '
         'cut-off after neighbour shell 1..2 and a second cut-off after shell 1..3 on the same crystal; (a) StarSet(N in 1..3, <= 320 states [420 thorough], origin states on in 70%) -> omega1/omega2 '
-        'networks; (b) VacancyMediated(Nthermo in 1..2, kinetic set <= 260 / 200 states [340 / 260 thorough]) -> pruned networks; non-trivial = '
+        'networks, and in 60 % the same object regenerated (origin-state flag flipped at the same range, or another range) and asked again; (b) VacancyMediated(Nthermo in 1..2, kinetic set <= 260 / 200 states [340 / 260 thorough]) -> pruned networks; non-trivial = '
         'at least two omega1 classes; distinct = (structure kind, sites, |G|, range, omega1 classes, omega2 classes, pruned?)')
 ASSUMPTIONS = ['reference space group = vmon.ref.geom.full_group (cases where its order differs from len(crys.G) are skipped)',
                'displacements compared to 1e-9',
@@ -27,7 +27,7 @@ ASSUMPTIONS = ['reference space group = vmon.ref.geom.full_group (cases where it
 REQUIRED_OBS = {'networks_checked': 150, 'eval:C26:om1-complete': 80, 'eval:C26:om2-complete': 80, 'eval:C26:om1-orbit': 300,
                 'eval:C26:om2-orbit': 100, 'eval:C26:om1-dx': 80, 'eval:C26:om1-jumptype': 80, 'eval:C26:om1-starpair': 80,
                 'eval:C26:pruned-exactly-outer': 25, 'calculators_checked': 25, 'calculators_with_pruning': 15, 'outer_outer_hops': 500,
-                'nthermo2_calculators': 3, 'dim2_cases': 15, 'multisite_cases': 15, 'hops_checked': 5000}
+                'nthermo2_calculators': 3, 'reused_starsets': 15, 'reused_starsets_flag_flipped': 8, 'dim2_cases': 15, 'multisite_cases': 15, 'hops_checked': 5000}
 CASE_TIMEOUT = 400
 PER_CASE = 2
 VARIANTS = 2
@@ -161,6 +161,31 @@ def run_case(case):
             check_network(mon, pg, keys, ss.index, n2, m2, 2, 'StarSet(N=%d, origin=%s).jumpnetwork_omega2()' % (N, origin), d1)
         if n1 is not None and n2 is not None and len(n1[0]) > 1:
             mon.sig([kind, pg.N, len(pg.group), N, len(n1[0]), len(n2[0]), False])
+
+        # ---- (a') reuse: the same StarSet object regenerated (other origin-state flag at the same range, or another range) and asked again
+        if n1 is not None and n2 is not None and rng.uniform() < 0.6:
+            flip = rng.uniform() < 0.6 or len(okN) == 1
+            N2 = N if flip else int([x for x in okN if x != N][int(rng.integers(len(okN) - 1))])
+            origin2 = (not origin) if flip else bool(rng.uniform() < 0.5)
+            d1b = dict(desc, N=N2, origin=origin2, history='generate(%d, %s) -> omega1/omega2 -> generate(%d, %s)' % (N, origin, N2, origin2))
+            ok2 = False
+            with mon.guard('C26:regenerate'):
+                ss.generate(N2, originstates=origin2)
+                ok2 = True
+            if ok2:
+                keys2 = [pairs.key_of(s) for s in ss.states]
+                m1b, m2b = pg.hops(set(keys2))
+                r1 = r2 = None
+                with mon.guard('C26:jumpnetwork_omega1'):
+                    r1 = ss.jumpnetwork_omega1()
+                with mon.guard('C26:jumpnetwork_omega2'):
+                    r2 = ss.jumpnetwork_omega2()
+                mon.count('reused_starsets')
+                mon.count('reused_starsets_flag_flipped', flip)
+                if r1 is not None:
+                    check_network(mon, pg, keys2, ss.index, r1, m1b, 1, 'reused StarSet %s .jumpnetwork_omega1()' % d1b['history'], d1b, tags=('reused-object',))
+                if r2 is not None:
+                    check_network(mon, pg, keys2, ss.index, r2, m2b, 2, 'reused StarSet %s .jumpnetwork_omega2()' % d1b['history'], d1b, tags=('reused-object',))
 
         # ---- (b) calculator level: pruning ----------------------------------------------------
         cand = [nt for nt in (1, 2) if nt + 1 in sizes and len(sizes[nt + 1]) <= (cap1 if nt == 1 else cap2)]
